@@ -326,3 +326,129 @@ class C08(Prop):
         h = n // w if w else 0
         k = "empty" if n == 0 else f"w%4={w % 4} h%2={h % 2} groups={'0' if w < 4 else ('1' if w < 8 else '>1')}"
         hist[k] = hist.get(k, 0) + 1
+
+
+# ---------------------------------------------------------------------------------------------
+# C11 / C12: dequantisation and vector arithmetic (hook-level unit cases)
+
+@register
+class C11(Prop):
+    id = "C11"
+    thm_module = "H263V.Thm.C11"
+    rule = ("L lines: inverse_rle (hook) on one-coefficient blocks: all 31 quantizers x all levels -1023..1023 (quick: all levels at 3 zig-zag "
+            "positions + a 1-in-7 sample at the other 61; thorough: all 64 positions), multi-event blocks with random runs, early-return "
+            "blocks (run past position 63); IDC lines: all 256 INTRADC codes; P lines: 16x16 Sorenson pictures carrying INTRA+Q macroblocks for "
+            "all 31 x 4 quantizer updates (the observation route named in the property). Non-trivial: every L/IDC line; distinct by text.")
+    assumptions = ["levels are stored as f32 in the Rust code; all values are integers of magnitude <= 2048 and exact"]
+
+    def cases(self, tier, rng):
+        out = [f"IDC {c}" for c in range(256)]
+        for q in range(1, 32):
+            for lvl in range(-1023, 1024):
+                if lvl == 0:
+                    continue
+                for pos in range(64):
+                    if tier == "thorough" or pos in (0, 1, 63) or (q * 31 + lvl * 7 + pos) % 97 == 0:
+                        out.append(f"L {q} - {pos},{lvl}")
+        for _ in range(3000 if tier == "quick" else 60000):
+            q = rng.randint(1, 31)
+            dc = rng.choice(["-", str(rng.choice([1, 2, 127, 129, 254, 255, rng.randint(1, 254)]))])
+            if dc == "128":
+                dc = "129"
+            n = rng.randint(0, 8)
+            evs = []
+            for _k in range(n):
+                evs.append(f"{rng.choice([0, 0, 1, 2, 5, rng.randint(0, 63)])},{rng.choice([1, -1, 2, -3, 100, -127, 1023, rng.randint(-1023, 1023) or 1])}")
+            out.append(f"L {q} {dc} {';'.join(evs) if evs else '-'}")
+        import core
+        out += core.gen_lines("dquant", 0, 0)
+        return out
+
+    def oracle_line(self, case):
+        t = case.split(" ", 1)
+        return {"L": "LS ", "IDC": "IDCS "}.get(t[0]) and {"L": "LS ", "IDC": "IDCS "}[t[0]] + t[1]
+
+    def in_domain(self, case):
+        # the spec evaluator (LS) handles one-coefficient blocks without INTRADC
+        t = case.split(" ")
+        if t[0] == "L":
+            return t[2] == "-" and t[3] != "-" and ";" not in t[3]
+        return True
+
+    def exhaustive(self, tier):
+        return tier == "thorough"
+
+
+@register
+class C12(Prop):
+    id = "C12"
+    thm_module = "H263V.Thm.C12"
+    rule = ("M lines: mv_decode (hook) on all 64 x 64 (predictor, differential) pairs per component (x and y swapped in turn), plus the UMV "
+            "range classes; A lines: average_sum_of_mvs for all sums -128..124 and a sample of the i16 range; LP / MED lines; N lines: "
+            "predict_candidate at every macroblock position of pictures 1, 2, 3 and 5 macroblocks wide x 3 rows x 4 block indices with random "
+            "neighbour vectors (zero vectors for intra / not-coded neighbours). Non-trivial: M with a wrap, N with row > 0; distinct by text.")
+
+    def cases(self, tier, rng):
+        out = []
+        for p in range(-32, 32):
+            for d in range(-32, 32):
+                out.append(f"M 0 0 - 176 144 {p} {rng.randint(-32, 31)} {d} {rng.randint(-32, 31)}")
+                out.append(f"M 0 0 - 176 144 {rng.randint(-32, 31)} {p} {rng.randint(-32, 31)} {d}")
+        for s in range(-128, 125):
+            out.append(f"A {s}")
+        for s in [-32768, -32767, -129, 125, 126, 127, 128, 4095, 32767] + [rng.randint(-32768, 32767) for _ in range(500)]:
+            out.append(f"A {s}")
+        for v in list(range(-70, 71)) + [rng.randint(-32768, 32767) for _ in range(200)]:
+            out.append(f"LP {v}")
+        vals = [-32, -3, -1, 0, 1, 2, 31]
+        for a in vals:
+            for b in vals:
+                for c in vals:
+                    out.append(f"MED {a} {b} {c}")
+        # UMV variants
+        for _ in range(2000 if tier == "quick" else 40000):
+            plus = rng.randint(0, 1)
+            umv = rng.randint(0, 1)
+            mvr = rng.choice(["E", "U", "-"])
+            w = rng.choice([16, 176, 352, 356, 704, 708, 1408, 1412, 2048])
+            h = rng.choice([16, 144, 288, 292, 576, 580, 1152])
+            big = rng.random() < 0.3
+            px, py = (rng.randint(-600, 600), rng.randint(-600, 600)) if big else (rng.randint(-64, 64), rng.randint(-64, 64))
+            dx, dy = rng.randint(-32, 31), rng.randint(-32, 31)
+            out.append(f"M {plus} {umv} {mvr} {w} {h} {px} {py} {dx} {dy}")
+        # candidate predictors
+        def mv4(zero=False):
+            return [0] * 8 if zero else [rng.randint(-32, 31) for _ in range(8)]
+        reps = 2 if tier == "quick" else 12
+        for w in (1, 2, 3, 5):
+            for n in range(0, 3 * w):
+                for idx in range(4):
+                    for _ in range(reps):
+                        pv = []
+                        for _k in range(n):
+                            pv += mv4(zero=rng.random() < 0.3)
+                        cur = mv4()
+                        out.append(f"N {w} {idx} {','.join(map(str, cur))} {','.join(map(str, pv)) if pv else '-'}")
+        return out
+
+    def nontrivial(self, case, model_out):
+        t = case.split(" ")
+        if t[0] == "M":
+            return not (-32 <= int(t[6]) + int(t[8]) < 32)
+        return True
+
+    def oracle_line(self, case):
+        t = case.split(" ", 1)
+        m = {"M": "MS ", "A": "AS ", "MED": "MEDS ", "LP": "LPS "}
+        return m.get(t[0]) and m[t[0]] + t[1]
+
+    def in_domain(self, case):
+        t = case.split(" ")
+        if t[0] == "M":
+            return t[2] == "0" and all(-32 <= int(v) < 32 for v in t[6:10])
+        if t[0] == "A":
+            return True
+        return True
+
+    def exhaustive(self, tier):
+        return True
